@@ -842,7 +842,7 @@ def main(tier):
                 else:
                     oracle_layer(run, x, wcases, "C08-wide", opts, clamp_need)
                     if tag == "cn":
-                        producer_layer(run, model, x, [c for c in wcases if c["tn"][:2] in ("WS", "WT", "WC", "WD", "WQ") or c["label"] in ("int", "list")],
+                        producer_layer(run, model, x, [c for c in wcases if (c["tn"][:2] in ("WS", "WT", "WC", "WD", "WQ") or c["label"] in ("int", "list")) and "REAL" not in c.get("text", "")],
                                        "C08-producers(wide)", opts, wide)
                 tick("ran %s %s" % (tag, x["name"]))
         check_clamp_model(run, model, clamp_need)
